@@ -5,12 +5,12 @@
 //! sound because every transition first establishes that the real objects' complete observable
 //! content equals the abstract state. Every transition (not only new states) is checked.
 
+use crate::drivers::*;
 use crate::engine::*;
 use crate::run::*;
 use crate::sched::*;
 use crate::settings::*;
 use crate::spm::*;
-use crate::drivers::*;
 use rayon::prelude::*;
 use scale_typegen::typegen::error::TypeSubstitutionErrorKind;
 use scale_typegen::typegen::settings::substitutes::absolute_path;
@@ -90,11 +90,18 @@ pub fn alphabet() -> Vec<Call> {
     v.push(Call::Extend(vec![a[0].clone(), a[7].clone()]));
     v.push(Call::Extend(vec![a[1].clone(), a[9].clone()]));
     v.push(Call::Extend(vec![a[9].clone(), a[1].clone()]));
-    v.push(Call::Extend(vec![a[2].clone(), a[10].clone(), a[4].clone()]));
+    v.push(Call::Extend(vec![
+        a[2].clone(),
+        a[10].clone(),
+        a[4].clone(),
+    ]));
     v.push(Call::Extend(vec![]));
     // the same accumulators reached through the TypeGeneratorSettings builder
     v.push(Call::BuilderSubstitute(P.into(), "::t::X".into()));
-    v.push(Call::BuilderSubstitute("p::a::P<A>".into(), "::t::Y<A>".into()));
+    v.push(Call::BuilderSubstitute(
+        "p::a::P<A>".into(),
+        "::t::Y<A>".into(),
+    ));
     v.push(Call::BuilderSubstitute(Q.into(), "crate::Z".into()));
     v.push(Call::BuilderDerivesAll(vec![D2.into()]));
     v
@@ -150,13 +157,33 @@ fn pair_error(s: &str, t: &str) -> Option<&'static str> {
 impl Model {
     pub fn apply(&mut self, c: &Call) -> Expected {
         let ins = |m: &mut BTreeMap<String, BTreeSet<String>>, p: &str, xs: &[String]| {
-            m.entry(squash(p)).or_default().extend(xs.iter().map(|x| squash(x)));
+            m.entry(squash(p))
+                .or_default()
+                .extend(xs.iter().map(|x| squash(x)));
         };
         match c {
-            Call::AllDerives(d) | Call::BuilderDerivesAll(d) => self.all_d.extend(d.iter().map(|x| squash(x))),
+            Call::AllDerives(d) | Call::BuilderDerivesAll(d) => {
+                self.all_d.extend(d.iter().map(|x| squash(x)))
+            }
             Call::AllAttrs(a) => self.all_a.extend(a.iter().map(|x| squash(x))),
-            Call::ForDerives(p, d, rec) => ins(if *rec { &mut self.rec_d } else { &mut self.spec_d }, p, d),
-            Call::ForAttrs(p, a, rec) => ins(if *rec { &mut self.rec_a } else { &mut self.spec_a }, p, a),
+            Call::ForDerives(p, d, rec) => ins(
+                if *rec {
+                    &mut self.rec_d
+                } else {
+                    &mut self.spec_d
+                },
+                p,
+                d,
+            ),
+            Call::ForAttrs(p, a, rec) => ins(
+                if *rec {
+                    &mut self.rec_a
+                } else {
+                    &mut self.spec_a
+                },
+                p,
+                a,
+            ),
             Call::Insert(s, t) | Call::BuilderSubstitute(s, t) => {
                 if let Some(e) = pair_error(s, t) {
                     return Expected::Err(e);
@@ -225,13 +252,27 @@ impl Real {
     /// apply one call; Ok(()) or the error kind name
     pub fn apply(&mut self, c: &Call) -> Result<(), String> {
         match c {
-            Call::AllDerives(d) => self.derives.add_derives_for_all(d.iter().map(|s| parse_path(s))),
-            Call::AllAttrs(a) => self.derives.add_attributes_for_all(a.iter().map(|s| parse_attr(s))),
-            Call::ForDerives(p, d, rec) => self.derives.add_derives_for(parse_type_path(p), d.iter().map(|s| parse_path(s)), *rec),
-            Call::ForAttrs(p, a, rec) => self.derives.add_attributes_for(parse_type_path(p), a.iter().map(|s| parse_attr(s)), *rec),
+            Call::AllDerives(d) => self
+                .derives
+                .add_derives_for_all(d.iter().map(|s| parse_path(s))),
+            Call::AllAttrs(a) => self
+                .derives
+                .add_attributes_for_all(a.iter().map(|s| parse_attr(s))),
+            Call::ForDerives(p, d, rec) => self.derives.add_derives_for(
+                parse_type_path(p),
+                d.iter().map(|s| parse_path(s)),
+                *rec,
+            ),
+            Call::ForAttrs(p, a, rec) => self.derives.add_attributes_for(
+                parse_type_path(p),
+                a.iter().map(|s| parse_attr(s)),
+                *rec,
+            ),
             Call::Insert(s, t) => {
                 let t = absolute_path(parse_path(t)).map_err(|e| kind_name(&e.kind).to_string())?;
-                self.subs.insert(src_path(s), t).map_err(|e| kind_name(&e.kind).to_string())?
+                self.subs
+                    .insert(src_path(s), t)
+                    .map_err(|e| kind_name(&e.kind).to_string())?
             }
             Call::BuilderSubstitute(s, t) => {
                 let mut st = scale_typegen::TypeGeneratorSettings::default();
@@ -247,7 +288,9 @@ impl Real {
             }
             Call::InsertIfAbsent(s, t) => {
                 let t = absolute_path(parse_path(t)).map_err(|e| kind_name(&e.kind).to_string())?;
-                self.subs.insert_if_not_exists(src_path(s), t).map_err(|e| kind_name(&e.kind).to_string())?
+                self.subs
+                    .insert_if_not_exists(src_path(s), t)
+                    .map_err(|e| kind_name(&e.kind).to_string())?
             }
             Call::Extend(pairs) => {
                 // the caller converts targets first (the API takes AbsolutePath): a relative target
@@ -263,7 +306,10 @@ impl Real {
                         }
                     }
                 }
-                let r = self.subs.extend(conv).map_err(|e| kind_name(&e.kind).to_string());
+                let r = self
+                    .subs
+                    .extend(conv)
+                    .map_err(|e| kind_name(&e.kind).to_string());
                 r?;
                 if let Some(e) = early {
                     return Err(e);
@@ -281,8 +327,20 @@ fn tok(t: &impl quote::ToTokens) -> String {
 /// complete observable content of the real objects, in the model's vocabulary
 fn observe(real: &Real) -> Model {
     let mut m = Model::default();
-    m.all_d = real.derives.default_derives().derives().iter().map(tok).collect();
-    m.all_a = real.derives.default_derives().attributes().iter().map(tok).collect();
+    m.all_d = real
+        .derives
+        .default_derives()
+        .derives()
+        .iter()
+        .map(tok)
+        .collect();
+    m.all_a = real
+        .derives
+        .default_derives()
+        .attributes()
+        .iter()
+        .map(tok)
+        .collect();
     // derives_on_specific_types chains specific then recursive; split them by probing with a clone:
     // the public API does not tell them apart, so observe the union here and the split through generation
     for (p, d) in real.derives.derives_on_specific_types() {
@@ -300,7 +358,12 @@ fn observe(real: &Real) -> Model {
 fn probe_registry() -> scale_info::PortableRegistry {
     // P { c: C }, C { v: u8 }, Q(u16)
     let defs = vec![
-        Def::strukt(&["p", "a"], "P", &[], named(vec![("c", Ty::Named(1, vec![]))])),
+        Def::strukt(
+            &["p", "a"],
+            "P",
+            &[],
+            named(vec![("c", Ty::Named(1, vec![]))]),
+        ),
         Def::strukt(&["p", "a"], "C", &[], named(vec![("v", U8)])),
         Def::strukt(&["p", "b"], "Q", &[], unnamed(vec![U16])),
     ];
@@ -376,7 +439,12 @@ pub fn check_history(h: &[Call], ctx: &mut Ctx) -> Model {
         }
         match (&want, &got) {
             (_, Err(p)) => {
-                ctx.violation("C16/panic", format!("call {c:?} panics: {p}"), replay(), h.len());
+                ctx.violation(
+                    "C16/panic",
+                    format!("call {c:?} panics: {p}"),
+                    replay(),
+                    h.len(),
+                );
                 return model;
             }
             (Expected::Ok, Ok(Ok(()))) => {}
@@ -393,7 +461,11 @@ pub fn check_history(h: &[Call], ctx: &mut Ctx) -> Model {
                 if !matches!(c, Call::Extend(_)) && observe(&real).subs != before.subs {
                     ctx.violation(
                         "C16/rejected-but-changed",
-                        format!("call {c:?} was rejected but changed the rules: {:?} -> {:?}", before.subs, observe(&real).subs),
+                        format!(
+                            "call {c:?} was rejected but changed the rules: {:?} -> {:?}",
+                            before.subs,
+                            observe(&real).subs
+                        ),
                         replay(),
                         h.len(),
                     );
@@ -417,20 +489,32 @@ pub fn check_history(h: &[Call], ctx: &mut Ctx) -> Model {
     let obs = observe(&real);
     let mut union_d: BTreeMap<String, BTreeSet<String>> = model.spec_d.clone();
     for (k, v) in &model.rec_d {
-        union_d.entry(k.clone()).or_default().extend(v.iter().cloned());
+        union_d
+            .entry(k.clone())
+            .or_default()
+            .extend(v.iter().cloned());
     }
     let mut union_a: BTreeMap<String, BTreeSet<String>> = model.spec_a.clone();
     for (k, v) in &model.rec_a {
-        union_a.entry(k.clone()).or_default().extend(v.iter().cloned());
+        union_a
+            .entry(k.clone())
+            .or_default()
+            .extend(v.iter().cloned());
     }
     // entries with empty sets are not observable differences
     let strip = |m: &BTreeMap<String, BTreeSet<String>>| -> BTreeMap<String, BTreeSet<String>> {
-        m.iter().filter(|(_, v)| !v.is_empty()).map(|(k, v)| (k.clone(), v.clone())).collect()
+        m.iter()
+            .filter(|(_, v)| !v.is_empty())
+            .map(|(k, v)| (k.clone(), v.clone()))
+            .collect()
     };
     if obs.all_d != model.all_d || obs.all_a != model.all_a {
         ctx.violation(
             "C16/global-sets",
-            format!("global derives/attributes {:?}/{:?}, model {:?}/{:?}", obs.all_d, obs.all_a, model.all_d, model.all_a),
+            format!(
+                "global derives/attributes {:?}/{:?}, model {:?}/{:?}",
+                obs.all_d, obs.all_a, model.all_d, model.all_a
+            ),
             replay(),
             h.len(),
         );
@@ -438,7 +522,10 @@ pub fn check_history(h: &[Call], ctx: &mut Ctx) -> Model {
     if strip(&obs.spec_d) != strip(&union_d) || strip(&obs.spec_a) != strip(&union_a) {
         ctx.violation(
             "C16/per-type-sets",
-            format!("per-type registrations {:?}/{:?}, model {:?}/{:?}", obs.spec_d, obs.spec_a, union_d, union_a),
+            format!(
+                "per-type registrations {:?}/{:?}, model {:?}/{:?}",
+                obs.spec_d, obs.spec_a, union_d, union_a
+            ),
             replay(),
             h.len(),
         );
@@ -446,7 +533,10 @@ pub fn check_history(h: &[Call], ctx: &mut Ctx) -> Model {
     if obs.subs != model.subs {
         ctx.violation(
             "C16/substitute-rules",
-            format!("rules {:?}, model {:?} (last insert/extend wins, insert-if-absent never replaces)", obs.subs, model.subs),
+            format!(
+                "rules {:?}, model {:?} (last insert/extend wins, insert-if-absent never replaces)",
+                obs.subs, model.subs
+            ),
             replay(),
             h.len(),
         );
@@ -454,7 +544,12 @@ pub fn check_history(h: &[Call], ctx: &mut Ctx) -> Model {
     for k in model.subs.keys() {
         let segs: Vec<String> = k.split("::").map(|s| s.to_string()).collect();
         if !real.subs.contains(&segs) {
-            ctx.violation("C16/contains", format!("contains({k}) is false"), replay(), h.len());
+            ctx.violation(
+                "C16/contains",
+                format!("contains({k}) is false"),
+                replay(),
+                h.len(),
+            );
         }
     }
     // the rules in force, observed by applying them: generation on a probe registry that uses the generic
@@ -486,7 +581,11 @@ pub fn check_history(h: &[Call], ctx: &mut Ctx) -> Model {
             };
             if show(&a) != show(&b_) {
                 let (sa, sb) = (show(&a), show(&b_));
-                let i = sa.chars().zip(sb.chars()).position(|(x, y)| x != y).unwrap_or(sa.len().min(sb.len()));
+                let i = sa
+                    .chars()
+                    .zip(sb.chars())
+                    .position(|(x, y)| x != y)
+                    .unwrap_or(sa.len().min(sb.len()));
                 let lo = i.saturating_sub(40);
                 let cut = |s: &str| s.chars().skip(lo).take(120).collect::<String>();
                 ctx.violation(
@@ -522,7 +621,12 @@ pub fn check_history(h: &[Call], ctx: &mut Ctx) -> Model {
                         let mut full = vec!["types".to_string()];
                         full.extend(path.split("::").map(|s| s.to_string()));
                         let Some(item) = em.items.get(&full) else {
-                            ctx.violation("C16/probe-item-missing", format!("{path} not emitted"), replay(), h.len());
+                            ctx.violation(
+                                "C16/probe-item-missing",
+                                format!("{path} not emitted"),
+                                replay(),
+                                h.len(),
+                            );
                             continue;
                         };
                         let got_d: BTreeSet<String> = item.derives().into_iter().collect();
@@ -571,7 +675,11 @@ pub fn run(tier: &str, seed: u64) -> i32 {
         states: 1,
         ..Default::default()
     };
-    let shared = std::sync::Mutex::new((Vec::<Violation>::new(), std::collections::HashSet::<u64>::new(), 0u64));
+    let shared = std::sync::Mutex::new((
+        Vec::<Violation>::new(),
+        std::collections::HashSet::<u64>::new(),
+        0u64,
+    ));
     let mut completed = 0;
     for d in 0..depth {
         let results: Vec<Vec<(Model, Vec<Call>)>> = frontier
@@ -597,7 +705,10 @@ pub fn run(tier: &str, seed: u64) -> i32 {
             .collect();
         if start.elapsed() > wall {
             st.exhaustive = false;
-            st.cap_hit = Some(format!("wall cap {wall:?} hit at depth {}; depths <= {d} fully covered", d + 1));
+            st.cap_hit = Some(format!(
+                "wall cap {wall:?} hit at depth {}; depths <= {d} fully covered",
+                d + 1
+            ));
             break;
         }
         let mut next = vec![];
@@ -643,13 +754,18 @@ pub fn run(tier: &str, seed: u64) -> i32 {
     st.violations = by
         .into_iter()
         .map(|(_, (n, mut v))| {
-            v.detail = format!("{} ({n} transitions fail this way; shortest history shown)", v.detail);
+            v.detail = format!(
+                "{} ({n} transitions fail this way; shortest history shown)",
+                v.detail
+            );
             v
         })
         .collect();
     st.wall_s = start.elapsed().as_secs_f64();
     // engine self-check: the number of abstract states must not depend on the exploration order
-    report.extra.insert("distinct_abstract_states".into(), json!(seen.len()));
+    report
+        .extra
+        .insert("distinct_abstract_states".into(), json!(seen.len()));
     report.extra.insert("hooks_enabled".into(), json!(HOOKS));
     report.add(st);
     report.assumptions = vec![
